@@ -262,9 +262,6 @@ Proof.
   destruct processed; [reflexivity|apply IH].
 Qed.
 
-Lemma fix_all_strip : forall F, C04.fix_all S' F = C04.fix_all SC F.
-Proof. intro F. unfold C04.fix_all. rewrite entry_fuel_strip. reflexivity. Qed.
-
 Definition lift_r (r : forest * bool * pendings * list str) : forest * bool * pendings * list str :=
   let '(F, e, P, mods) := r in (F, e, sP P, mods).
 
@@ -274,7 +271,6 @@ Proof.
   intros n_aug. induction fuel as [|f IH]; intros; [reflexivity|].
   cbn [C04.rounds]. rewrite augment_loop_strip.
   destruct (augment_loop SC (S n_aug) F err P mods 0) as [[[[Fa ea] Pa] modsa] applied]. cbn [lift_ap].
-  rewrite fix_all_strip.
   destruct modsa as [|m0 ms]; [reflexivity|].
   destruct round; [apply IH|]. destruct applied; [reflexivity|apply IH].
 Qed.
